@@ -430,6 +430,10 @@ struct Builder {
 	}
 
 	size_t genAmount(size_t w, bool allowBeyond) {
+		size_t a = genAmount0(w, allowBeyond);
+		return allowBeyond ? a : std::min(a, w);
+	}
+	size_t genAmount0(size_t w, bool allowBeyond) {
 		switch (rng.below(8)) {
 			case 0: return 0;
 			case 1: return 1;
@@ -456,6 +460,9 @@ struct Builder {
 			size_t wa = V(A).w;
 			int B = rng.chance(1, 2) ? operand(t, dag, wa) : operand(t, dag);
 			size_t wb = V(B).w;
+			// SInt order comparisons and mixed-width SInt multiplication take the sign bit: zero-width operands throw
+			if (t == 's' && std::max(wa, wb) == 0 && (name == "lt" || name == "gt" || name == "leq" || name == "geq") && !allowMalformed) return -1;
+			if (t == 's' && name == "mul" && wa != wb && std::min(wa, wb) == 0 && !allowMalformed) return -1;
 			const char pols[] = "nzos";
 			char pa = pols[rng.below(4)], pb = pols[rng.below(4)];
 			if (!(allowMalformed && rng.chance(1, 12))) {
@@ -476,7 +483,9 @@ struct Builder {
 		if (cat < 40) return apply("not", {operand(pickVecType(), dag)});
 		if (cat < 45) { // broadcast
 			static const std::vector<std::string> ops = {"vand","vor","vxor","vnand","vnor","vxnor"};
-			int A = operand(pickVecType(), dag), B = operand('b', dag);
+			int A = operand(pickVecType(), dag);
+			if (V(A).w == 0 && !allowMalformed) return -1; // the broadcast Bit is one bit wide: a zero-width vector cannot be expanded
+			int B = operand('b', dag);
 			return apply(rng.pick(ops), {A, B});
 		}
 		if (cat < 49) {
@@ -500,6 +509,7 @@ struct Builder {
 			int A = operand('u', dag);
 			size_t amt = genAmount(V(A).w, false);
 			if (V(A).w == 0) return -1;
+			if (amt == 0 && !allowMalformed) amt = 1; // sext(bit, 0_b) is rejected
 			return apply("shra", {A, operand('b', dag)}, {amt});
 		}
 		if (cat < 68) { // dynamic shifts
@@ -697,7 +707,7 @@ static void runCase(uint64_t caseSeed, size_t id, const std::string &mode, size_
 	bool conc = mode == "conc" || mode == "concw";
 	b.constMode = mode == "const";
 	b.wide = !(mode == "conc") && !(mode == "dags");
-	b.beyond = !conc;
+	b.beyond = !conc && !b.constMode;
 	if (mode == "op") {
 		for (int tries = 0; tries < 20 && b.vals.empty(); tries++) b.genOp(false, true);
 		// skipped op categories leave only leaves behind; the last value is still a valid (trivial) expression
@@ -708,20 +718,6 @@ static void runCase(uint64_t caseSeed, size_t id, const std::string &mode, size_
 		for (size_t i = 0; i < nops && !b.failed; i++) b.genOp(true, false);
 	}
 	if (b.failed || b.vals.empty()) { o << "end\n"; return; }
-
-	// construction-time evaluation of every expression (const mode) — before the simulator exists
-	std::vector<std::string> ct;
-	if (b.constMode) {
-		for (auto &v : b.vals) {
-			std::string r;
-			try {
-				sim::DefaultBitVectorState st;
-				switch (v->t) { case 'b': st = simu(*v->b).eval(); break; case 'u': st = simu(*v->u).eval(); break; case 's': st = simu(*v->s).eval(); break; default: st = simu(*v->v).eval(); }
-				r = vh::bitsToString(st);
-			} catch (const std::exception &) { r = "e"; }
-			ct.push_back(r);
-		}
-	}
 
 	Net net;
 	for (auto &v : b.vals) net.visit(v->port.node);
@@ -749,6 +745,26 @@ static void runCase(uint64_t caseSeed, size_t id, const std::string &mode, size_
 			auto d = sh->getDriver(1);
 			if (d.node && hlim::getOutputWidth(d) >= 64) { o << "unsafe " << i << " shift-amount-64bit\nend\n"; return; }
 			if (sh->getFillMode() == hlim::Node_Shift::fill::rotate && sh->getOutputConnectionType(0).width == 0) { o << "unsafe " << i << " rotate-zero-width\nend\n"; return; }
+		}
+	}
+
+	// construction-time evaluation of every expression (const mode) — before the simulator exists
+	std::vector<std::string> ct;
+	if (b.constMode) {
+		for (auto &v : b.vals) {
+			std::string r;
+			try {
+				sim::DefaultBitVectorState st;
+				switch (v->t) { case 'b': st = simu(*v->b).eval(); break; case 'u': st = simu(*v->u).eval(); break; case 's': st = simu(*v->s).eval(); break; default: st = simu(*v->v).eval(); }
+				r = vh::bitsToString(st);
+			} catch (const std::exception &ex) {
+				// canonical form: exception text up to the location, blanks replaced
+				std::string m = ex.what();
+				size_t cut = m.find(" Location:"); if (cut != std::string::npos) m = m.substr(0, cut);
+				for (auto &c : m) if (c == ' ' || c == '\n' || c == '\t') c = '_';
+				r = "e(" + m.substr(0, 160) + ")";
+			}
+			ct.push_back(r);
 		}
 	}
 
